@@ -96,7 +96,8 @@ def expected(pycls, handlers, is_expr=True):
     return ("hook", "handle_unsupported_expression")
 
 
-def judge(fn, cached=False, skip_own=False, module_tree=None, class_node=None):
+def judge(fn, cached=False, skip_own=False, module_tree=None, class_node=None,
+          foreign=True, rec_is_plain=False):
     """-> (witnesses, n_cases).  skip_own: the routine is the fallback only
     (rec_fallback), which never looks at the node's own handler name."""
     if len(fn.args.args) < 2:
@@ -160,6 +161,9 @@ def judge(fn, cached=False, skip_own=False, module_tree=None, class_node=None):
                     if attr == "rec_fallback":
                         return lambda *a, **k: _fallback(base, *a, **k)
                     return base.marker("hook", attr)
+                if attr == "rec" and rec_is_plain:
+                    # (code that stands for a rec site, not the routine itself)
+                    return lambda *a, **k: _plain(base, *a, **k)
                 if attr == "_cache":
                     return base._cache
                 if attr == "get_cache_key":
@@ -275,7 +279,7 @@ def judge(fn, cached=False, skip_own=False, module_tree=None, class_node=None):
                             wit.append(f"{label}: a second request is computed "
                                        "again instead of served from the table")
     # foreign objects
-    for obj in (5, 2.5, "s", (1, 2), [1, 2]):
+    for obj in (5, 2.5, "s", (1, 2), [1, 2]) if foreign else ():
         n += 1
         mp = AbsMapper(["map_l0"])
         try:
